@@ -149,6 +149,14 @@ def main():
         if ident_code is not None and ident_code != ident_db:
             ck.spec_failure('identifier:code-vs-database', 'code and database of one run carry different identifiers (%s vs %s)' % (ident_code, ident_db), rp)
         elif e:   # set and non-empty: must not depend on the clock
+            if e == '1700000000':
+                first = open(os.path.join(d, 'id', 'o.in'), 'rb').read()
+                time.sleep(1.2)
+                subprocess.run([b['interrogate'], '-DCPPPARSER', '-oc', 'o.cxx', '-od', 'o.in', '-module', 'm', '-library', 'l', '-python-native', 'h.h'], cwd=os.path.join(d, 'id'), env=env,
+                               stdout=subprocess.PIPE, stderr=subprocess.STDOUT)
+                if open(os.path.join(d, 'id', 'o.in'), 'rb').read() != first:
+                    ck.spec_failure('identifier:clock-dependent', 'two runs 1.2 s apart with the same SOURCE_DATE_EPOCH produce different databases', rp)
+                    continue
             if ident_db != mod:
                 ck.violation('corr_C14_ident', 'identifier %d, model %d for SOURCE_DATE_EPOCH=%r' % (ident_db, mod, e), dict(rp, kind='correspondence'), nofail=True)
             else:
